@@ -681,3 +681,214 @@ Proof.
   destruct (wq_pending s3); [exact I3|].
   eapply LInvG_core; [|exact I3]. reflexivity.
 Qed.
+
+(* ------------------------------------------------------------------ *)
+(* timers                                                             *)
+(* ------------------------------------------------------------------ *)
+Definition tframe (t t' : tstate) (i : nat) : Prop :=
+  now t' = now t /\ length (tms t') = length (tms t) /\
+  (forall j, In j (ready t') -> In j (ready t)) /\
+  (forall j, j <> i -> get t' j = get t j).
+
+Definition tclose_ok (t t' : tstate) (i : nat) : Prop :=
+  t_closing (get t' i) = t_closing (get t i) /\
+  ((t_closing (get t i) = true -> t_active (get t i) = false) ->
+   (t_closing (get t' i) = true -> t_active (get t' i) = false)).
+
+Lemma tframe_refl t i : tframe t t i.
+Proof. repeat split; auto. Qed.
+
+Lemma tframe_trans a b c i : tframe a b i -> tframe b c i -> tframe a c i.
+Proof.
+  intros (A1 & A2 & A3 & A4) (B1 & B2 & B3 & B4). repeat split; try congruence.
+  - intros j Hj. apply A3, B3, Hj.
+  - intros j Hj. rewrite B4, A4 by exact Hj. reflexivity.
+Qed.
+
+Lemma tclose_refl t i : tclose_ok t t i.
+Proof. split; auto. Qed.
+
+Lemma tclose_trans a b c i : tclose_ok a b i -> tclose_ok b c i -> tclose_ok a c i.
+Proof. intros (A1 & A2) (B1 & B2). split; [congruence|auto]. Qed.
+
+Lemma tframe_stop t i : TI t -> (i < length (tms t))%nat ->
+  tframe t (timer_stop t i) i /\ tclose_ok t (timer_stop t i) i /\
+  t_active (get (timer_stop t i) i) = false.
+Proof.
+  intros T Hi.
+  destruct (timer_stop_effect t i T Hi) as (Ea & Hnr & Hnow & Hctr & Hlen & Hrd & Hfld & Hoth).
+  split; [repeat split; auto|]. split; [|exact Ea].
+  split; [apply Hfld|]. intros _ _. exact Ea.
+Qed.
+
+Lemma tframe_start t i cb to r : TI t -> (i < length (tms t))%nat ->
+  tframe t (fst (timer_start t i cb to r)) i /\ tclose_ok t (fst (timer_start t i cb to r)) i.
+Proof.
+  intros T Hi.
+  destruct (timer_start_frame t i cb to r T Hi) as (A & B & C & D).
+  split; [repeat split; auto|].
+  unfold timer_start. destruct cb as [c|]; [|apply tclose_refl].
+  destruct (t_closing (get t i)) eqn:Ec; [cbn [fst]; apply tclose_refl|].
+  cbn [fst].
+  destruct (timer_stop_effect t i T Hi) as (Ea & Hnr & Hnow & Hctr & Hlen & Hrd & Hfld & Hoth).
+  assert (Hc : t_closing (get (timer_stop t i) i) = false) by (destruct (Hfld i) as (_&_&_&_&->&_); exact Ec).
+  split.
+  - rewrite get_set_same by (cbn [tms]; lia). cbn [t_closing]. unfold get in *; cbn [tms]. congruence.
+  - intros _. rewrite get_set_same by (cbn [tms]; lia). cbn [t_closing]. unfold get in *; cbn [tms].
+    congruence.
+Qed.
+
+Lemma tframe_again t i : TI t -> (i < length (tms t))%nat ->
+  tframe t (fst (timer_again t i)) i /\ tclose_ok t (fst (timer_again t i)) i.
+Proof.
+  intros T Hi. unfold timer_again.
+  destruct (t_cb (get t i)) as [c|]; [|split; [apply tframe_refl|apply tclose_refl]].
+  destruct (t_repeat (get t i) =? 0); [split; [apply tframe_refl|apply tclose_refl]|].
+  cbn [fst]. destruct (tframe_stop t i T Hi) as (F1 & C1 & _).
+  pose proof (TI_timer_stop t i T Hi) as T1.
+  assert (Hi1 : (i < length (tms (timer_stop t i)))%nat) by (destruct F1 as (_ & -> & _); exact Hi).
+  destruct (tframe_start (timer_stop t i) i (Some c) (t_repeat (get t i)) (t_repeat (get t i)) T1 Hi1)
+    as (F2 & C2).
+  split; [eapply tframe_trans; eauto|eapply tclose_trans; eauto].
+Qed.
+
+Lemma tframe_close t i : TI t -> (i < length (tms t))%nat ->
+  tframe t (timer_close t i) i /\
+  t_closing (get (timer_close t i) i) = true /\ t_active (get (timer_close t i) i) = false.
+Proof.
+  intros T Hi. destruct (tframe_stop t i T Hi) as ((A1 & A2 & A3 & A4) & C1 & Ea).
+  unfold timer_close. split; [|split].
+  - unfold tframe. rewrite now_set, len_set, ready_set. repeat split; auto.
+    intros j Hj. rewrite get_set_other by congruence. apply A4; exact Hj.
+  - rewrite get_set_same by lia. reflexivity.
+  - rewrite get_set_same by lia. cbn [t_active]. exact Ea.
+Qed.
+
+Lemma tframe_set_repeat t i r : (i < length (tms t))%nat ->
+  tframe t (timer_set_repeat t i r) i /\
+  t_closing (get (timer_set_repeat t i r) i) = t_closing (get t i) /\
+  t_active (get (timer_set_repeat t i r) i) = t_active (get t i).
+Proof.
+  intros Hi. unfold timer_set_repeat. split; [|split].
+  - unfold tframe. rewrite now_set, len_set, ready_set. repeat split; auto.
+    intros j Hj. rewrite get_set_other by congruence. reflexivity.
+  - rewrite get_set_same by lia. reflexivity.
+  - rewrite get_set_same by lia. reflexivity.
+Qed.
+
+Lemma hstep_sync_timer_active s0 s i f T K C :
+  (i < length (hs s0))%nat -> hstepG s0 s i f T K C ->
+  hstepG s0 (sync_timer_active s i) i (fun h => with_active (t_active (get T i)) (f h)) T K C.
+Proof.
+  intros Hi Hst. unfold sync_timer_active.
+  assert (E : ts s = T) by (destruct Hst as (_ & _ & E & _); exact E). rewrite E.
+  destruct (t_active (get T i)).
+  - apply hstep_handle_start; assumption.
+  - apply hstep_handle_stop; assumption.
+Qed.
+
+(* the general shape of a timer call: the timer part moves from [ts s0] to
+   [T], handle [i] ends up active exactly when its timer is *)
+Lemma LInvG_timer_sync s0 s pend wpend i F T :
+  LInvG s0 pend wpend -> (i < length (hs s0))%nat ->
+  hstepG s0 s i F T (clock s0) (closing s0) ->
+  TI T -> tframe (ts s0) T i -> tclose_ok (ts s0) T i ->
+  (t_active (get T i) = true -> is_timer (hget s0 i) = true) ->
+  h_kind (F (hget s0 i)) = h_kind (hget s0 i) ->
+  h_active (F (hget s0 i)) = t_active (get T i) ->
+  h_closing (F (hget s0 i)) = h_closing (hget s0 i) ->
+  h_closed (F (hget s0 i)) = h_closed (hget s0 i) ->
+  LInvG s pend wpend.
+Proof.
+  intros Hinv Hi Hst HT (F1 & F2 & F3 & F4) (C1 & C2) Hta Hk Ha Hcg Hcd.
+  pose proof Hinv as [HI _].
+  pose proof Hst as (A1 & A2 & A3 & A4 & A5 & A6 & A7 & A8).
+  destruct (hi_sync _ _ HI i Hi) as (S1 & S2 & S3).
+  destruct (hi_hok _ _ HI i Hi) as (K1 & K2).
+  specialize (C2 S3).
+  assert (Hcl_inact : h_closing (hget s0 i) = true -> t_active (get T i) = false).
+  { intros Hc. destruct (t_active (get T i)) eqn:Eb; [|reflexivity].
+    specialize (Hta eq_refl). specialize (S2 Hta Hc). rewrite <- C1 in S2.
+    specialize (C2 S2). congruence. }
+  eapply LInvG_hstep with (i := i) (f := F); eauto; rewrite ?A3, ?A4; auto.
+  - rewrite F1. apply (hi_clock _ _ HI).
+  - unfold tsync1, is_timer in *. rewrite Hk, Ha, Hcg. split; [|split].
+    + destruct (t_active (get T i)) eqn:Eb; [|rewrite andb_false_r; reflexivity].
+      rewrite (Hta eq_refl). reflexivity.
+    + intros Ht Hc. rewrite C1. apply S2; assumption.
+    + exact C2.
+  - unfold hok. rewrite Ha, Hcg, Hcd. split; [exact Hcl_inact|exact K2].
+Qed.
+
+Lemma LInvG_l_timer_stop s pend wpend i :
+  (i < length (hs s))%nat -> LInvG s pend wpend -> LInvG (l_timer_stop s i) pend wpend.
+Proof.
+  intros Hi Hinv. pose proof Hinv as [HI _].
+  assert (Hit : (i < length (tms (ts s)))%nat) by (rewrite (hi_len _ _ HI); exact Hi).
+  destruct (tframe_stop (ts s) i (hi_ti _ _ HI) Hit) as (F1 & C1 & Ea).
+  unfold l_timer_stop.
+  eapply LInvG_timer_sync with (i := i) (T := timer_stop (ts s) i); eauto.
+  - apply hstep_sync_timer_active; [exact Hi|]. apply hstep_set_ts with (T := ts s). apply hstep_refl.
+  - apply TI_timer_stop; [apply (hi_ti _ _ HI)|exact Hit].
+  - rewrite Ea. discriminate.
+Qed.
+
+Lemma LInvG_l_timer_start s pend wpend i cb t r :
+  (i < length (hs s))%nat -> is_timer (hget s i) = true ->
+  LInvG s pend wpend -> LInvG (fst (l_timer_start s i cb t r)) pend wpend.
+Proof.
+  intros Hi Htm Hinv. pose proof Hinv as [HI _].
+  assert (Hit : (i < length (tms (ts s)))%nat) by (rewrite (hi_len _ _ HI); exact Hi).
+  destruct (tframe_start (ts s) i cb t r (hi_ti _ _ HI) Hit) as (F1 & C1).
+  pose proof (TI_timer_start (ts s) i cb t r (hi_ti _ _ HI) Hit) as T1.
+  unfold l_timer_start. destruct (timer_start (ts s) i cb t r) as [ts' c] eqn:E.
+  cbn [fst] in *.
+  destruct (c =? 0).
+  - eapply LInvG_timer_sync with (i := i) (T := ts'); eauto.
+    + apply hstep_sync_timer_active; [exact Hi|]. apply hstep_set_ts with (T := ts s).
+      apply hstep_handle_stop; [exact Hi|apply hstep_refl].
+    + reflexivity.
+    + reflexivity.
+  - eapply LInvG_timer_sync with (i := i) (T := ts'); eauto.
+    + apply hstep_sync_timer_active; [exact Hi|]. apply hstep_set_ts with (T := ts s).
+      apply hstep_refl.
+    + reflexivity.
+Qed.
+
+Lemma LInvG_l_timer_again s pend wpend i :
+  (i < length (hs s))%nat -> is_timer (hget s i) = true ->
+  LInvG s pend wpend -> LInvG (fst (l_timer_again s i)) pend wpend.
+Proof.
+  intros Hi Htm Hinv. pose proof Hinv as [HI _].
+  assert (Hit : (i < length (tms (ts s)))%nat) by (rewrite (hi_len _ _ HI); exact Hi).
+  destruct (tframe_again (ts s) i (hi_ti _ _ HI) Hit) as (F1 & C1).
+  pose proof (TI_timer_again (ts s) i (hi_ti _ _ HI) Hit) as T1.
+  unfold l_timer_again. destruct (timer_again (ts s) i) as [ts' c] eqn:E.
+  cbn [fst] in *.
+  destruct ((c =? 0) && negb (t_repeat (get (ts s) i) =? 0)).
+  - eapply LInvG_timer_sync with (i := i) (T := ts'); eauto.
+    + apply hstep_sync_timer_active; [exact Hi|]. apply hstep_set_ts with (T := ts s).
+      apply hstep_handle_stop; [exact Hi|apply hstep_refl].
+    + reflexivity.
+    + reflexivity.
+  - eapply LInvG_timer_sync with (i := i) (T := ts'); eauto.
+    + apply hstep_sync_timer_active; [exact Hi|]. apply hstep_set_ts with (T := ts s).
+      apply hstep_refl.
+    + reflexivity.
+Qed.
+
+Lemma LInvG_set_repeat s pend wpend i r :
+  (i < length (hs s))%nat ->
+  LInvG s pend wpend -> LInvG (set_ts s (timer_set_repeat (ts s) i r)) pend wpend.
+Proof.
+  intros Hi Hinv. pose proof Hinv as [HI _].
+  assert (Hit : (i < length (tms (ts s)))%nat) by (rewrite (hi_len _ _ HI); exact Hi).
+  destruct (tframe_set_repeat (ts s) i r Hit) as ((F1 & F2 & F3 & F4) & Ec & Ea).
+  destruct (hi_sync _ _ HI i Hi) as (S1 & S2 & S3).
+  eapply LInvG_hstep with (i := i) (f := fun h => h); eauto.
+  - apply hstep_set_ts with (T := ts s). apply hstep_refl.
+  - cbn [ts clock set_ts]. rewrite F1. apply (hi_clock _ _ HI).
+  - cbn [ts set_ts]. apply TI_set_repeat; [apply (hi_ti _ _ HI)|exact Hit].
+  - cbn [ts set_ts]. unfold tsync1. rewrite Ec, Ea. auto.
+  - apply (hi_hok _ _ HI i Hi).
+Qed.
